@@ -14,7 +14,7 @@ Docs == {"link", "layout"}
 
 MCInit ==
   /\ ctor \in {"new", "build"}
-  /\ signers \in {<<"k1">>, <<"k1", "k2">>, <<"k1", "k2", "k3">>}
+  /\ signers \in {<<"k1">>, <<"k1", "k2">>, <<"k1", "k2", "k3">>, <<"k1", "k1">>, <<"k2", "k1", "k2">>}
   /\ fmt \in {"compact", "pretty", "cjson", "cjson_pretty"}   \* serde_json compact / pretty, Json / JsonPretty interchange
   /\ str \in StrsFor
   /\ field \in Docs
@@ -29,8 +29,9 @@ MCNext ==
 
 MCSpec == MCInit /\ [][MCNext]_lvars
 
+SetToSeqL(S) == IF S = {"ok"} THEN <<"ok">> ELSE IF S = {"err"} THEN <<"err">> ELSE <<"ok", "err">>
 Emit ==
   LDone =>
     PrintT(<<"SCN", ToJson(
-      [m |-> "LIFE", doc |-> field, s |-> str, ops |-> ops, out |-> res, allow |-> <<res>>])>>)
+      [m |-> "LIFE", doc |-> field, s |-> str, ops |-> ops, out |-> res, allow |-> IF res \in AllowedVerdicts THEN SetToSeqL(AllowedVerdicts) ELSE <<res>>])>>)
 =============================================================================
